@@ -1269,8 +1269,19 @@ def r_subst(P, u, rep):
                     pr = sp.pred_of(xo)
                     A.ob('R09.3', '%s:%s:paste-rhs-body-token' % (U, fn), pr is not None and sp.cls(pr) == {'##'} and PARAM not in (sp.cls(xo) or {PARAM}),
                          'paste() takes a replacement-list token that does not follow "##" or that may be a parameter', where, facts)
+                    A.ob('R09.3', '%s:%s:paste-rhs-may-be-stringize-operator' % (U, fn), not _may_be_hash_operator(sp, xo),
+                         'paste() takes as its right operand a single replacement-list token of which the code has not excluded that it is a `#` followed by a parameter: the operand of ## is then the '
+                         'string literal that # makes of the argument (C11 6.10.3.2p2: each `# parameter` is replaced by one string literal - that literal is the preprocessing token next to the ##), '
+                         'but the bare `#` is pasted: `#define F(x, y) x ## #y` / F(L, a) is rejected with "pasting forms \'L#\'" instead of giving L"a"', where, facts)
                     A.ob('R09.21', '%s:%s:paste-rhs-may-be-va-opt-group' % (U, fn), not _may_open_va_opt(sp, xo),
                          'paste() takes as its right operand a single replacement-list token of which the code has not excluded that it is the `__VA_OPT__` of a `__VA_OPT__( )` group: the operand of ## is the whole group (its substituted content, or a placemarker when there are no variable arguments) - `#define F(x, ...) x ## __VA_OPT__(a)` / F(p,1) yields `p__VA_OPT__(a)` instead of `pa`', where, facts)
+                elif isinstance(xo, Obj) and any(c_[1] == 'stringize' and c_[4] is xo for c_ in sp.calls):
+                    # `x ## #y`: the string literal made by # is the operand
+                    sc = [c_ for c_ in sp.calls if c_[1] == 'stringize' and c_[4] is xo][0]
+                    h = as_obj(it, sc[2][0])
+                    pr = sp.pred_of(h) if isinstance(h, Obj) else None
+                    A.ob('R09.3', '%s:%s:paste-rhs-stringized-operand' % (U, fn), pr is not None and sp.cls(pr) == {'##'},
+                         'paste() takes the result of a # whose `#` token does not follow "##"', where, facts)
                 else:
                     rep.undecided('R09.3', '%s:%s:paste-rhs-unknown' % (U, fn), 'the right operand of paste() (%r) is neither an argument nor a replacement-list token' % (x,), where)
             elif e[1] == 'preprocess2':
@@ -1301,6 +1312,9 @@ def r_subst(P, u, rep):
                     continue        # a private copy of the argument made for a callee (preprocess2 relinks what it is given): not part of the result
                 if isinstance(o, Obj) and id(o) in sp.body_ids and id(o) not in sp.raw:
                     seen['body-copy'] += 1
+                    A.ob('R09.3', '%s:%s:stringize-operator-copied-as-plain-token' % (U, fn), not _may_be_hash_operator(sp, o),
+                         'a replacement-list token is copied into the result as an ordinary token although the code has not excluded that it is a `#` followed by a parameter (the token right of a ## whose '
+                         'left operand is empty): the # operator is not applied - `#define G(x, y) x ## #y` / G(,b) yields `# b` instead of "b"', where, facts)
                     A.ob('R09.21', '%s:%s:va-opt-group-copied-as-plain-token' % (U, fn), not _may_open_va_opt(sp, o),
                          'a replacement-list token is copied into the result as an ordinary token although the code has not excluded that it is the `__VA_OPT__` of a `__VA_OPT__( )` group (the token right of a ## whose left operand is empty): the name __VA_OPT__ and its parentheses appear in the expansion - `#define F(x, ...) x ## __VA_OPT__(a)` / F(,1) yields `__VA_OPT__(a)` instead of `a`', where, facts)
                 if id(o) in sp.raw:
@@ -1374,6 +1388,16 @@ def r_subst(P, u, rep):
             rep.undecided('R09.3', '%s:%s:no-%s-path' % (U, fn, k), 'no explored path of subst performs the "%s" action (shape not recognised)' % k, where='%s:%d' % (U, line))
     r_paste_operands(P, u, rep)
     return it, paths
+
+
+def _may_be_hash_operator(sp, t):
+    """the decisions of the path leave it possible that body token t is `#` and the token after it a parameter"""
+    c = sp.cls(t)
+    if c is not None and '#' not in c:
+        return False
+    nx = sp.next_of(t)
+    cn = sp.cls(nx) if nx is not None else None
+    return cn is None or PARAM in cn
 
 
 def _may_open_va_opt(sp, t):
